@@ -96,7 +96,7 @@ RELATED = {
     "C31": {"C31"},
     "C38": {"C38"},
     # scheduler protocol
-    "C11": {"C11", "C15"},
+    "C11": {"C11", "C15", "C14"},
     "C14": {"C14"},
     "C15": {"C15", "C11", "C13"},
     "C16": {"C16", "C14"},
